@@ -273,3 +273,26 @@ Proof.
         with ((x * x + x0 * x0 + x1 * x1) / (n * n)) by (field; lra).
       rewrite <- Hs. field; lra.
 Qed.
+
+(* ---------------- compose: what is really needed, and what fails without it ---------------- *)
+(* only the matrices that are followed by another one have to be affine: the last one may be anything *)
+Lemma compose_left_to_right_butlast ms p : Forall (affine ROps) (removelast ms) ->
+  mapply_pt ROps (compose_transforms ROps ms) p = fold_left (fun q m => mapply_pt ROps m q) ms p.
+Proof.
+  rewrite compose_cprod. induction ms as [|x l _] using rev_ind; [intros _; apply mapply_pt_I4|].
+  rewrite removelast_last. intros H. rewrite cprod_app, fold_left_app. cbn [fold_left cprod].
+  rewrite mmul_I4_l, mapply_pt_mmul by (apply cprod_affine, H). f_equal. apply cprod_left_to_right, H.
+Qed.
+(* apply_transform drops w without dividing: with a projective matrix in front the sequential reading fails *)
+Definition proj_witness_a : mat4 R := M4 1 0 0 0  0 1 0 0  0 0 1 0  1 0 0 1.
+Definition proj_witness_b : mat4 R := M4 1 0 0 1  0 1 0 0  0 0 1 0  0 0 0 1.
+Lemma compose_projective_counterexample :
+  mapply_pt ROps (compose_transforms ROps [proj_witness_a; proj_witness_b]) (V3 1 0 0) = V3 3 0 0 /\
+  mapply_pt ROps proj_witness_b (mapply_pt ROps proj_witness_a (V3 1 0 0)) = V3 2 0 0.
+Proof. split; apply V3_inj; cbv [compose_transforms rev app fold_left proj_witness_a proj_witness_b]; munf; ring. Qed.
+Lemma compose_projective_refuted : exists a b p,
+  mapply_pt ROps (compose_transforms ROps [a; b]) p <> mapply_pt ROps b (mapply_pt ROps a p).
+Proof.
+  exists proj_witness_a, proj_witness_b, (V3 1 0 0). destruct compose_projective_counterexample as [-> ->].
+  intros H. injection H as H. lra.
+Qed.
